@@ -141,6 +141,13 @@ var properties = map[string]*propDef{
 			"third-party goroutines (zap, errgroup internals) are scheduled by the Go runtime inside the bubble",
 		},
 		RequiredProbes: []string{"yield_lock", "yield_chan", "yield_fs", "yield_atomic", "history_ops_checked", "delete_ok", "gc_pass"},
-		Units: []unit{cesiumUnit("cesium-conc", "c09")},
+		Units: []unit{cesiumUnit("cesium-conc", "c09"), func() unit {
+			u := cesiumUnit("cesium-conc-race", "c09")
+			u.Race = true
+			u.GoMaxProcs = []int{1, 4, 16}
+			u.QuickBudget, u.QuickWorkers = 20*time.Second, 6
+			u.ThoroughBudget, u.ThoroughWorkers = 10*time.Minute, 12
+			return u
+		}()},
 	},
 }
